@@ -57,7 +57,7 @@ def run_ring_program(prog, tid: str, prop: str, variant: int = 0, configs: bool 
             if not new:
                 break
             regs.append(new[0])
-    if len(regs) > sum(1 for ins in prog if ins["op"] == "seed"):
+    if len(regs) > sum(1 for ins in prog if ins["op"] == "seed") and dtype != "int8":     # (2*2)**2**2 leaves int8
         # and the square of the last result, through the spellings that reach numpy.square (p ** 2 is one of them)
         rec.do("unary", [regs[-1]], keep=False, op="square", spelling=SPELLINGS[(variant + 1) % 3])
     rec.meta["source"] = "MC_Ring"
